@@ -133,6 +133,16 @@ func runC33(t *testing.T, sc c33sc, keepAlive time.Duration, prefix []int) explo
 					glog = append(glog, "DISCONNECT+1s")
 					return late(time.Second)
 				}
+			case p.Type == refsn.DISCONNECT:
+				// the reply to the plain DISCONNECT of Disconnect(): a keep-alive tick can fall into the exchange
+				switch s.Choose(3, "plain DISCONNECT reply") {
+				case 1:
+					glog = append(glog, "plain DISCONNECT reply +1s")
+					return late(time.Second)
+				case 2:
+					glog = append(glog, "plain DISCONNECT reply +2.5s")
+					return late(2500 * time.Millisecond)
+				}
 			}
 			return [][]byte{a}
 		})
@@ -174,6 +184,23 @@ func runC33(t *testing.T, sc c33sc, keepAlive time.Duration, prefix []int) explo
 			for _, x := range sent {
 				if x.p.Type == refsn.PINGREQ && len(x.p.Data) == 0 && (x.state == util.StateAsleep || x.state == util.StateDisconnected) {
 					add("keepalive-pingreq-while:"+x.state.String(), "PINGREQ without client id sent at %v while the client state is %s", x.at, x.state)
+					break
+				}
+			}
+		}
+		// O1b: the protocol view - once the client has sent its plain DISCONNECT it is disconnected whatever its own
+		// state variable says: no keep-alive PINGREQ (first transmission or retransmission) may follow it
+		if keepAlive > 0 {
+			gone := time.Duration(-1)
+			for _, x := range sent {
+				switch {
+				case x.p.Type == refsn.DISCONNECT && !(x.p.HasDur && x.p.Duration > 0) && gone < 0:
+					gone = x.at
+				case x.p.Type == refsn.PINGREQ && len(x.p.Data) == 0 && gone >= 0 && x.at > gone:
+					add("keepalive-pingreq-after-disconnect-sent", "PINGREQ without client id sent at %v, the client's DISCONNECT went out at %v", x.at, gone)
+					gone = -2
+				}
+				if gone == -2 {
 					break
 				}
 			}
@@ -285,7 +312,7 @@ func TestC33(t *testing.T) {
 	}
 	explore.RunScenarios(rep, scs, explore.ScenarioOpts{Test: "TestC33", QuickBound: 2, ThoroughFrom: 2, ThoroughMax: 4,
 		QuickBudget: 150 * time.Second, ThoroughBudge: 12 * time.Minute})
-	rep.Coverage["rule"] = "KeepAlive 4 s and 2 s (a tick can come due while the previous ping is in flight), RetryDelay 1 s, RetryCount 2; after Connect one API action (Sleep 3 s / Sleep 6 s / Disconnect / Publish q1 / Ping / none) at t = 0.5 .. 9.5 s (0.5 .. 5.5 s for KeepAlive 2 s), plus Sleep 1 s / 2 s with RetryDelay 3 s (asleep and awake again within one keep-alive exchange); the gateway answers each keep-alive PINGREQ at once / 1 s late / 2 s late / never and a DISCONNECT(d) at once / 1 s late; all combinations of these answers, of thread interleavings (API thread, receive loop, keep-alive loop, timer goroutines), of orders of timers due at the same instant and of ready select cases within the deviation bound, run to a 20 s horizon. Checked: no PINGREQ without client id is written while the client state is asleep or disconnected; while active PINGREQs are at most KeepAlive apart (when every ping is answered); with every ping answered the API call returns nil as it does without the keep-alive loop, and it returns in any case"
+	rep.Coverage["rule"] = "KeepAlive 4 s and 2 s (a tick can come due while the previous ping is in flight), RetryDelay 1 s, RetryCount 2; after Connect one API action (Sleep 3 s / Sleep 6 s / Disconnect / Publish q1 / Ping / none) at t = 0.5 .. 9.5 s (0.5 .. 5.5 s for KeepAlive 2 s), plus Sleep 1 s / 2 s with RetryDelay 3 s (asleep and awake again within one keep-alive exchange); the gateway answers each keep-alive PINGREQ at once / 1 s late / 2 s late / never a DISCONNECT(d) at once / 1 s late and the reply to the plain DISCONNECT at once / 1 s / 2.5 s late; all combinations of these answers, of thread interleavings (API thread, receive loop, keep-alive loop, timer goroutines), of orders of timers due at the same instant and of ready select cases within the deviation bound, run to a 20 s horizon. Checked: no PINGREQ without client id is written while the client state is asleep or disconnected, nor after the client's plain DISCONNECT has gone out (whatever its own state variable says); while active PINGREQs are at most KeepAlive apart (when every ping is answered); with every ping answered the API call returns nil as it does without the keep-alive loop, and it returns in any case"
 	rep.Assumptions = []string{"virtual time; timers on whole seconds, actions on half seconds", "client state sampled at every scheduling step", "keep-alive PINGREQ = PINGREQ without client id"}
 	rep.Finish()
 }
